@@ -3053,6 +3053,20 @@ scan_escape_sequence(int c) {
     // \e is non-standard, but GCC supports it.
     return '\x1B';
 
+  case 'u':
+  case 'U':
+    // universal-character-name: four or eight hexadecimal digits that name
+    // a code point.
+    {
+      int count = (c == 'u') ? 4 : 8;
+      int val = 0;
+      while (count > 0 && isxdigit(peek())) {
+        val = (val << 4) | hex_val(get());
+        --count;
+      }
+      return val;
+    }
+
   case 'x':
     // hex character.
     c = get();
